@@ -176,14 +176,25 @@ pub fn check_case(ctx: &mut Ctx, c: &Case) {
         others.push(("u32", guard(|| { let v: Vec<u32> = vals.iter().map(|&x| x as u32).collect(); (WaveletMatrix::from(v.clone()), WMCore::from(v)) })));
     }
     others.push(("usize", guard(|| { let v: Vec<usize> = vals.iter().map(|&x| x as usize).collect(); (WaveletMatrix::from(v.clone()), WMCore::from(v)) })));
+    // Same vector through another item type: same length, width, items and index answers. (The property
+    // is about answers; identical representation across item types is not stated.)
+    let _ = &bytes;
     for (t, r) in others {
         match r {
             Ok((w2, c2)) => {
-                let same = w2 == wm && to_bytes(&w2) == bytes && c2 == core;
-                ctx.require(|| format!("WaveletMatrix.from(Vec<{}>)", t), same, || json!({"wm": case(), "call": format!("From<Vec<{}>>", t)}), || json!({"observed": "matrix differs from the one built from Vec<u64>"}));
+                let same = guard(|| {
+                    let mut ok = w2.len() == n && w2.width() == width && w2.iter().eq(vals.iter().copied()) && c2.len() == n && c2.width() == width;
+                    for v in value_args(vals, width) {
+                        ok &= w2.contains(v) == wm.contains(v) && w2.rank(n, v) == wm.rank(n, v) && w2.select(0, v) == wm.select(0, v) && w2.rank(n / 2, v) == wm.rank(n / 2, v);
+                    }
+                    for i in 0..n {
+                        ok &= c2.map_down(i) == core.map_down(i) && w2.inverse_select(i) == wm.inverse_select(i);
+                    }
+                    ok
+                });
+                ctx.expect(|| format!("WaveletMatrix.from(Vec<{}>)[same answers as from Vec<u64>]", t), same, &true, || json!({"wm": case(), "call": format!("From<Vec<{}>>", t)}));
             }
             Err(msg) => ctx.panic_violation(&format!("WaveletMatrix.from(Vec<{}>)", t), &msg, None, || json!({"wm": case(), "call": format!("From<Vec<{}>>", t)})),
         }
     }
 }
-
